@@ -54,6 +54,7 @@ type Exec struct {
 	loops    map[*ssa.Function]*LoopInfo
 	shape    string
 	shapeObj *Shape
+	witLv    [][]*Term // witness constants of skolemised assumptions, per solver level
 	ghostOld *Snapshot
 	cexHook  func(e *Exec, st *State, o *Oblig) *Cex
 	recvIface types.Type
@@ -70,6 +71,13 @@ const unrollLimit = 12
 func (e *Exec) assumeRaw(t *Term) {
 	if t == TTrue {
 		return
+	}
+	if hasQuant(t, map[*Term]bool{}) {
+		var made []*Term
+		t = skolemize(t, false, true, &made)
+		if len(made) > 0 {
+			e.witLv[len(e.witLv)-1] = append(e.witLv[len(e.witLv)-1], made...)
+		}
 	}
 	e.ensureDecls(t)
 	e.sol.Assert(t)
@@ -90,10 +98,12 @@ func (e *Exec) assumeOnce(key *Term, f func() *Term) {
 func (e *Exec) push() {
 	e.sol.Push()
 	e.onceLv = append(e.onceLv, map[*Term]bool{})
+	e.witLv = append(e.witLv, nil)
 }
 func (e *Exec) pop() {
 	e.sol.Pop()
 	e.onceLv = e.onceLv[:len(e.onceLv)-1]
+	e.witLv = e.witLv[:len(e.witLv)-1]
 }
 
 var builtinOps = map[string]bool{"and": true, "or": true, "not": true, "=>": true, "ite": true, "=": true, "+": true, "-": true, "*": true, "div": true, "mod": true,
@@ -222,7 +232,8 @@ func (e *Exec) check(st *State, fr *Frame, class string, instr ssa.Instruction, 
 		return true
 	}
 	orig := goal
-	goal = skolemGoal(goal)
+	var sks []*Term
+	goal = skolemize(goal, true, true, &sks)
 	e.ensureDecls(goal)
 	e.ensureDecls(orig)
 	if os.Getenv("GOVC_TRACE") != "" {
@@ -234,7 +245,7 @@ func (e *Exec) check(st *State, fr *Frame, class string, instr ssa.Instruction, 
 		e.assume(orig)
 		return false
 	}
-	cr := e.prove(st, o, goal)
+	cr := e.prove(st, o, goal, sks)
 	o.Secs += cr.Secs
 	ok := cr.Res == "unsat"
 	if ok {
@@ -306,7 +317,7 @@ func skolemsOf(g *Term) []*Term {
 // path instantiated at the skolem constants of the goal; then the other solvers
 // on the stand-alone script. The counterexample hook runs only when all of
 // them have failed, on a live model of the first solver.
-func (e *Exec) prove(st *State, o *Oblig, goal *Term) CheckResult {
+func (e *Exec) prove(st *State, o *Oblig, goal *Term, gsks []*Term) CheckResult {
 	s := e.sol
 	t0 := time.Now()
 	cr, script := s.primary(goal)
@@ -321,8 +332,17 @@ func (e *Exec) prove(st *State, o *Oblig, goal *Term) CheckResult {
 		return cr
 	}
 	pushed := false
-	if sks := skolemsOf(goal); len(sks) > 0 {
-		if insts := s.instancesAt(sks); len(insts) > 0 {
+	sks := skolemsOf(goal)
+	cands := e.candidates(st, sks)
+	goal2 := goal
+	if len(cands) > 0 {
+		goal2 = strengthen(goal, true, cands, 0)
+		e.ensureDecls(goal2)
+	}
+	if len(sks) > 0 || goal2 != goal {
+		insts := s.instancesAt(sks)
+		if len(insts) > 0 || goal2 != goal {
+			goal = goal2
 			e.push()
 			pushed = true
 			for _, x := range insts {
